@@ -51,9 +51,21 @@ func regHist(prop string, sc func() []histParams, depthQ, depthT int, rule strin
 }
 
 func init() {
-	regHist("C11", c11Scenarios, 4, 6, "explicit-state BFS over histories of deliveries, conflicts, safe reports and confirmations with a clean restart (Stop, new Node on the same store) inserted at any quiescent point; oracle: no second HandleTx after restart, later confirmation is an update with proof, safe not reported twice, flags sticky across restart, GetTx(txid) equals the delivered tx; plus a bounded-exhaustive save/load check of the unconfirmed file over 0-3 entries x all 8 flag combinations x sub-millisecond times", func(v core.Violation) bool {
-		return strings.Contains(v.Class, "across restart") || strings.Contains(v.Class, "after restart")
-	})
+	c11rule := "explicit-state BFS over histories of deliveries, conflicts, safe reports and confirmations with a clean restart (Stop, new Node on the same store) inserted at any quiescent point; oracle: no second HandleTx after restart, later confirmation is an update with proof, safe not reported twice, flags sticky across restart, GetTx(txid) equals the delivered tx; plus a bounded-exhaustive save/load differential of the unconfirmed set over 0-2 (thorough 0-3) entries x all 8 flag combinations x 4 times with sub-millisecond parts (state dump and behavioural probe sequence before vs after reload)"
+	All["C11"] = func() int {
+		rep := core.NewReport("C11", "model_checking")
+		n := 2
+		if rep.Thorough() {
+			n = 3
+		}
+		c11Component(rep, n)
+		histCheckInto(rep, histCheck{prop: "C11", scenarios: c11Scenarios(), depthQ: 4, depthT: 6, statesQ: 250000, statesT: 4000000,
+			budgetQ: 150 * time.Second, budgetT: 25 * time.Minute, rule: c11rule, assume: peerAssumption, accept: func(v core.Violation) bool {
+				return strings.Contains(v.Class, "across restart") || strings.Contains(v.Class, "after restart")
+			}})
+		return rep.Finish()
+	}
+	Replayers["C11"] = func(wit json.RawMessage) []core.Violation { return histReplay(wit, "C11") }
 	regHist("C06", c06Scenarios, 4, 6, "explicit-state BFS over histories: unconfirmed R1 (relevant), I1 (irrelevant), R3 delivered from trusted/untrusted peers; blocks confirming D1 (relevant double spend of R1), D2 (irrelevant double spend of R1), M1 (double spends I1 and R3), with or without the winner seen before; oracle: cancelled+unsafe update for every previously delivered loser, chain advances (block on the node's chain), block's relevant txs delivered with verified proofs", nil)
 	regHist("C07", c07Scenarios, 4, 6, "explicit-state BFS over histories with the virtual clock (safe delay 2000 ms; steps 100/1900/2300 ms): untrusted tx, trusted inv, trusted tx, conflict before/between/after expiry, confirmation, local submission, restart; oracle on the per-txid sequence of states: never safe&unsafe, cancelled=>unsafe, no safe after unsafe, safe only with trusted vouch + no known conflict + delay, safe at most once, and (liveness phase from every state) safe within delay+500 ms when warranted", nil)
 	regHist("C14", c14Scenarios, 4, 6, "explicit-state BFS over histories of inv announcements of overlapping txid sets from the trusted and two verified untrusted connections, deliveries, non-deliveries, pings (peer activity), clock steps 1 s / 3.1 s, confirmation; oracle over timestamped getdata(tx) on all connections: no two requests for a txid within 3 s, none after the body arrived, none after its block was processed, re-request from another announcer after the window", nil)
